@@ -185,7 +185,11 @@ func doOp1(s p9p.Session, ctx context.Context, op sessfs.Op, r *opResult, perr *
 	case "stat":
 		o.Dir, err = s.Stat(ctx, p9p.Fid(op.Fid))
 	case "wstat":
-		err = s.WStat(ctx, p9p.Fid(op.Fid), p9p.Dir{Mode: op.Perm, Length: ^uint64(0)})
+		d := p9p.Dir{Mode: op.Perm, Length: ^uint64(0)}
+		if op.Perm == ^uint32(0) {
+			d = sessfs.SyncDir()
+		}
+		err = s.WStat(ctx, p9p.Fid(op.Fid), d)
 	case "clunk":
 		err = s.Clunk(ctx, p9p.Fid(op.Fid))
 	case "remove":
